@@ -84,6 +84,7 @@ func c11Run(r *core.Run) {
 	ks := c11KeyStyles[ksi]
 
 	s := NewStd(r)
+	s.DrawLive()
 	spKey := 4 + t.Int(2, "c11.spkey")
 	spCert := world.MintCert(spKey, s.Epoch.Add(-24*time.Hour), s.Epoch.Add(24*time.Hour), 1)
 	o.Recipient = &world.Key(spKey).RSA.PublicKey
@@ -128,6 +129,7 @@ func c11Run(r *core.Run) {
 		lengths = []int{lenMode - 1}
 	}
 	fill := t.SubRand("c11.pt")
+	var keptGot, keptWant []byte // an earlier result, held while later decryptions run
 	for _, l := range lengths {
 		for variant := 0; variant < 2; variant++ {
 			pt := make([]byte, l)
@@ -169,6 +171,14 @@ func c11Run(r *core.Run) {
 			r.Steps++
 			if out.Panic != "" {
 				continue // totality is C09's matter
+			}
+			if keptGot != nil && !bytes.Equal(keptGot, keptWant) {
+				r.Fail("round-trip", fmt.Sprintf("C11/earlier-result-changed-by-a-later-call/%s", o.Sig()),
+					obs("cell", cell, "length", len(keptWant), "data_alg", o.DataAlg))
+				return
+			}
+			if out.OK() && len(got) > 0 && len(keptGot) == 0 {
+				keptGot, keptWant = got, append([]byte(nil), pt...)
 			}
 			if !out.OK() || !bytes.Equal(got, pt) {
 				r.Fail("round-trip", fmt.Sprintf("C11/decrypt-bytes-differs/%s", o.Sig()),
